@@ -268,6 +268,16 @@ def check(ctx):
         for pid, x in (lineend_prefixes(src) if quick else byte_prefixes(src)):
             for bn, st in (allprof[:1] if quick else allprof[:7]):
                 add("byte-prefix", "%s:%s" % (name, pid), x, lang, bn, st)
+    # (ii') the language units (import/using runs, property attribute lists with getter=/setter=, lambdas, D/C#/Vala/Pawn
+    #       constructs ...): every byte prefix and every token mutation, default configuration (thorough: + the kitchen sink)
+    from ..universe import langunits
+    lunits = [(n, lg, s) for lg in sorted(set(langunits.UNITS) | set(langunits.SP_UNITS)) for n, s, _m in langunits.units(lg) + langunits.sp_units(lg)]
+    for name, lang, src in lunits:
+        for pid, x in byte_prefixes(src):
+            for bn, st in (allprof[:1] if quick else allprof[:2]):
+                add("byte-prefix", "%s:%s" % (name, pid), x, lang, bn, st)
+        for mid, x in token_mutations(src):
+            add("token-mutation", "%s:%s" % (name, mid), x, lang, "defaults", {})
     # (iii) token mutations
     for name, lang, src in skels:
         for mid, x in token_mutations(src):
